@@ -387,7 +387,8 @@ pub fn gen_random(rng: &mut Rng, malformed: bool) -> Vec<Reg> {
 /// "widestage": 60..90 pairwise compatible systems (one stage with that many groups), then a few systems that conflict
 /// with, or depend on, one of them (also one far to the right)
 pub fn gen_widestage(rng: &mut Rng) -> Vec<Reg> {
-    let n = 60 + rng.below(31) as u32;
+    // (one in four: 120..270 groups)
+    let n = if rng.chance(1, 4) { 120 + rng.below(151) as u32 } else { 60 + rng.below(31) as u32 };
     let mut out = Vec::new();
     for i in 1..=n {
         let reads = if rng.chance(1, 3) { vec![500] } else { vec![] };
